@@ -129,6 +129,50 @@ func (k KeyKind) IsRSA() bool { return k.Bits() != 0 }
 // PSS reports whether PSS signing is used.
 func (k KeyKind) PSS() bool { return k == PSS2048 || k == PSS3072 }
 
+// KeyAlloc hands out pool keys that are pairwise distinct within one world (at most 16 RSA keys
+// of a size per world).
+type KeyAlloc struct {
+	mu   sync.Mutex
+	next map[int]int
+	base int
+}
+
+var allocBase int64
+
+// NewKeyAlloc starts an allocation at a rotating offset of the pool.
+func NewKeyAlloc() *KeyAlloc {
+	rsaPoolMu.Lock()
+	allocBase += 5
+	b := int(allocBase)
+	rsaPoolMu.Unlock()
+	return &KeyAlloc{next: map[int]int{}, base: b}
+}
+
+// NewKey returns a key of the kind, distinct from every other key of this allocation.
+func (a *KeyAlloc) NewKey(k KeyKind) crypto.Signer {
+	if !k.IsRSA() {
+		return k.NewKey()
+	}
+	a.mu.Lock()
+	i := a.next[k.Bits()]
+	a.next[k.Bits()] = i + 1
+	a.mu.Unlock()
+	if i >= 16 {
+		key, err := rsa.GenerateKey(rand.Reader, k.Bits())
+		if err != nil {
+			panic(err)
+		}
+		return key
+	}
+	return RSAKey(k.Bits(), a.base+i)
+}
+
+// NewParty creates a party whose key is distinct within the allocation.
+func (a *KeyAlloc) NewParty(name string, kind KeyKind) *Party {
+	key := a.NewKey(kind)
+	return &Party{Name: name, Kind: kind, Key: key, Chain: SelfSigned(key, name)}
+}
+
 // NewKey makes a private key of the kind (RSA keys come from the pool).
 func (k KeyKind) NewKey() crypto.Signer {
 	switch k {
